@@ -131,6 +131,14 @@ def reference(seedname):
         toks = atomic_tokens(mod)
         text = layout(toks, {})
         r = outputs(text)
+        if isinstance(r['tree'], str):
+            # the one-blank layout is rejected: take the one-token-per-line layout as the reference instead (the
+            # rejection of the one-blank layout is then reported as a violation by check_case)
+            alt = layout(toks, {g: '\n' for g in range(1, len(toks))})
+            r2 = outputs(alt)
+            if not isinstance(r2['tree'], str):
+                r2['single_blank_layout_rejected'] = r.get('tree_msg')
+                r, text = r2, alt
         r.update(gen_outputs(text))
         _ref[seedname] = (toks, r)
     return _ref[seedname]
@@ -160,6 +168,10 @@ def check_case(case):
                 fill[g] = ' ' + fill[g]
             text = layout(toks, fill)
             got = outputs(text)
+    if ref.get('single_blank_layout_rejected'):
+        viol.append({'sig': 'C12|rejected|whitespace|one-blank-between-all-tokens',
+                     'msg': 'the layout with exactly one blank between all tokens is rejected (%s) while the layout with one token per '
+                            'line is accepted\n--- input ---\n%s' % (ref['single_blank_layout_rejected'], layout(toks, {})[:600])})
     if isinstance(ref['tree'], str):
         raise RuntimeError('reference layout of seed %s does not parse: %s' % (case['seed'], ref.get('tree_msg')))
     if got['tree'] != ref['tree']:
